@@ -24,7 +24,7 @@ def mkT (l : Lbl) (outs : List OutDef) (checks : List (Path × Option Val)) (noC
 
 /-- the output hash `execTarget` computes -/
 def ohFor (cfg : Cfg) (t : Target) (k : κ) (ovs : Outs) : OH κ :=
-  if t.noCache || !cfg.enableCache then .nocache ovs else if t.outs.isEmpty then .self k else .outs ovs
+  if t.outs.isEmpty then .self k else if t.noCache || !cfg.enableCache then .nocache ovs else .outs ovs
 
 /-- the result `execTarget` stores -/
 def resFor (cfg : Cfg) (t : Target) (k : κ) (ovs : Outs) : Result κ :=
